@@ -16,6 +16,7 @@
 package main
 
 import (
+	"bytes"
 	"context"
 	"encoding/json"
 	"fmt"
@@ -40,7 +41,9 @@ import (
 const serial = 1700000000
 const minBucketSize = 30000 // rdb_builder.go
 
-type lineJ struct {
+// tableJ: the codec on one form of one chunk of the file
+type tableJ struct {
+	Line []int         `json:"line"`
 	Ok   bool          `json:"ok"`
 	Recs []complib.JKV `json:"recs"`
 }
@@ -69,7 +72,7 @@ type compileCase struct {
 	NRec     int           `json:"nrec"`
 	AllOk    bool          `json:"all_ok"` // reference codec accepted every line
 	BadLine  int           `json:"bad_line"`
-	Lines    []lineJ       `json:"lines,omitempty"`
+	Table    []tableJ      `json:"table,omitempty"` // small cases: see lineTable
 	Acc      []complib.JKV `json:"acc,omitempty"`
 	Feat     []complib.JKV `json:"feat,omitempty"`
 	NCPU     int           `json:"ncpu"` // runtime.NumCPU() = maxBucketNum of the builder
@@ -153,6 +156,33 @@ func compileOne(scratch, in string, cfg complib.Cfg, s setting) (err error, d co
 	return nil, d, derr
 }
 
+// lineTable: the codec's output for every '\n'-separated chunk of the file in the forms a line reader
+// may hand on: as it is, without one trailing CR, and each of these without leading blanks.  Nothing
+// is skipped or trimmed on behalf of the Coq model, which reads the file bytes itself and looks its
+// lines up here (forms shorter than two bytes or starting with '#' are left out: no reader asks for them).
+func lineTable(cfg complib.Cfg, file []byte) []tableJ {
+	res := []tableJ{}
+	seen := map[string]bool{}
+	codec := complib.NewCodec(cfg) // its accumulator is not used
+	for _, chunk := range bytes.Split(file, []byte("\n")) {
+		forms := [][]byte{chunk}
+		if n := len(chunk); n > 0 && chunk[n-1] == '\r' {
+			forms = append(forms, chunk[:n-1])
+		}
+		for _, f := range forms {
+			for _, l := range [][]byte{f, bytes.TrimLeft(f, " ")} {
+				if len(l) < 2 || l[0] == '#' || seen[string(l)] {
+					continue
+				}
+				seen[string(l)] = true
+				o := complib.ConvertOne(codec, l)
+				res = append(res, tableJ{hlib.Ints(l), o.Ok, complib.ToJKV(o.Recs)})
+			}
+		}
+	}
+	return res
+}
+
 func settingsGrid(cfg complib.Cfg) []setting {
 	var g []setting
 	for _, w := range []int{1, 2, 16} {
@@ -224,9 +254,7 @@ func runCompileCase(scratch string, class, cfgName string, file []byte, sets []s
 	c.NRec = len(recs)
 	want := complib.FromRecords(recs)
 	if small {
-		for _, l := range ref.Lines {
-			c.Lines = append(c.Lines, lineJ{l.Ok, complib.ToJKV(l.Recs)})
-		}
+		c.Table = lineTable(cfg, file)
 		c.Acc = complib.ToJKV(ref.Acc)
 		c.Feat = complib.ToJKV(ref.Feat)
 	}
@@ -311,7 +339,7 @@ func runCompileCase(scratch string, class, cfgName string, file []byte, sets []s
 
 // ---------------------------------------------------------------- generation
 
-func genSmallFile(r *hlib.Rng, class string) []byte {
+func genSmallFile(r *hlib.Rng, class string, wsTail bool) []byte {
 	g := complib.NewGen(r, 1+r.Intn(4), 1+r.Intn(6))
 	n := 1 + r.Intn(18)
 	nets := 0
@@ -334,9 +362,25 @@ func genSmallFile(r *hlib.Rng, class string) []byte {
 		lines = append(lines, "%ab,10.9.0.0/16,ec", "%zz,10.9.0.0/16,ec")
 		r.Shuffle(len(lines), func(i, j int) { lines[i], lines[j] = lines[j], lines[i] })
 	}
-	if class == "reject" {
+	insert := func(l string) {
 		pos := r.Intn(len(lines) + 1)
-		lines = append(lines[:pos], append([]string{g.BadLine()}, lines[pos:]...)...)
+		lines = append(lines[:pos], append([]string{l}, lines[pos:]...)...)
+	}
+	if wsTail {
+		// lines ending in white space: the reader hands them to the codec as they are
+		for k := 1 + r.Intn(3); k > 0; k-- {
+			insert(g.WsTailLine())
+		}
+	}
+	if r.Chance(1, 2) {
+		insert(g.WsSkipLine())
+	}
+	if class == "reject" {
+		insert(g.BadLine())
+	}
+	if class == "reject-ws" {
+		// the only bad line of the file: white space other than blanks in front
+		insert(g.WsLeadLine())
 	}
 	if class == "empty" {
 		lines = []string{"# nothing", ""}
@@ -703,6 +747,8 @@ func run(a *hlib.Args, e *hlib.Emitter) error {
 	for i := 0; i < a.N; i++ {
 		class := "wf"
 		switch {
+		case i%8 == 7:
+			class = "reject-ws"
 		case i%4 == 3:
 			class = "reject"
 		case i%11 == 5:
@@ -710,7 +756,7 @@ func run(a *hlib.Args, e *hlib.Emitter) error {
 		case i == 6:
 			class = "empty"
 		}
-		file := genSmallFile(r, class)
+		file := genSmallFile(r, class, i%2 == 0 || i%8 == 7)
 		cfgName := []string{"v1", "v2"}[i%2]
 		// a Builder costs about 1 GB of zeroed memory and a child process a second: few of them in the quick tier
 		sets := pickSettings(r, cfgOf(cfgName), perCase, thorough || i%4 == 0, thorough || i%3 == 1)
